@@ -1689,7 +1689,18 @@ fn gen_c18(r: &mut Rng, seed: u64) -> Scenario {
                 push_tags(&mut tags, &["fd-path-shadowed"]);
             }
         }
-        b.world.fds.push(FdSpec { fd: fdn, target: B(target), mode, stat_fails: false, link_fails: false });
+        // a descriptor the kernel cannot describe completely: the link text is longer than a path may be
+        // (readlink fails with ENAMETOOLONG), or the object behind it is gone (a directory of an exited
+        // process, a dead FUSE server: stat fails)
+        let (stat_fails, link_fails) = match r.below(14) {
+            0 => (true, false),
+            1 => (false, true),
+            _ => (false, false),
+        };
+        if stat_fails || link_fails {
+            push_tags(&mut tags, &["fd-not-describable"]);
+        }
+        b.world.fds.push(FdSpec { fd: fdn, target: B(target), mode, stat_fails, link_fails });
     }
     if nfds > 0 && r.chance(1, 4) {
         for (k, n) in [1_000_000u32, 2_147_483_647, 4_294_967_295].iter().enumerate() {
